@@ -379,8 +379,15 @@ class C20:
                 if after['files'].get(p) != data:
                     add_v('frame-violated', f'frame-violated/file-changed/by={opname}', 'unchanged ' + p,
                           'missing' if p not in after['files'] else 'content changed', path=p, op=opname)
+            faulted_now = fault_state() != f0
+            target_dirs = {posixpath.dirname(t) for t in targets}
             for p in after['files']:
                 if p not in before['files'] and p not in targets and p not in actor_paths:
+                    if faulted_now and posixpath.dirname(p) in target_dirs:
+                        # a failed write may leave a temporary file next to its target (write-then-rename implementations);
+                        # C20 says nothing about that: counted, not judged
+                        bump(probes, 'leftover_next_to_target_after_fault')
+                        continue
                     add_v('frame-violated', f'frame-violated/file-appeared/by={opname}', 'no new file', p, path=p, op=opname)
             actor_dirs = parents_of([s.get('target') for s in plan['fs'].get('actor', []) if s.get('target')]) | \
                 {s.get('path') for s in plan['fs'].get('actor', []) if s['act'] == 'mkdir'}
